@@ -13,7 +13,7 @@ from streams.cluster import hx
 
 NO_MODEL = True
 HEADER = 3
-REQUIRED_SHAPES = ["slow_consumer_during_handover", "write_during_routing_update", "join", "leave", "stacked_handovers", "read_with_previous_owner", "delete_with_previous_owner", "overwrite_with_previous_owner", "between_table_moves",
+REQUIRED_SHAPES = ["destroy_with_previous_owner", "slow_consumer_during_handover", "write_during_routing_update", "join", "leave", "stacked_handovers", "read_with_previous_owner", "delete_with_previous_owner", "overwrite_with_previous_owner", "between_table_moves",
                    "stable_all_members_read", "exactly_once_primary", "backups_kept", "prefixed_dmap_name"]
 DMS = ["dm", "dmap.x", "x"]
 
@@ -77,6 +77,14 @@ class Oracle:
             return None
         if name == "c.balance":
             self.hit("between_table_moves")
+            return None
+        if name == "c.destroy":
+            if reply != "ok":
+                return "Destroy answered %s" % reply
+            for dk in [dk for dk in self.exp if dk[0] == a[2]]:
+                del self.exp[dk]
+            if self.handover:
+                self.hit("destroy_with_previous_owner")
             return None
         if name == "c.put":
             dk = (a[2], a[3])
@@ -372,6 +380,14 @@ class Gen:
             # previous owners still hold everything: reads, overwrites, deletes from every member
             for op in op_mix(10):
                 yield op
+            if r.random() < 0.3:
+                # Destroy while previous owners still hold (all of) the DMap: every copy goes, wherever it lives
+                d = r.choice(DMS)
+                yield "c.destroy emb %d %s" % (r.choice(alive), d)
+                for d2, key in [dk for dk in keys if dk[0] == d][:4]:
+                    for m in alive:
+                        yield "c.get emb %d %s %s" % (m, d2, key)
+                yield "c.scanall emb %d %s * 100" % (r.choice(alive), d)
             # ... and a full iteration from any member: nothing has moved, the keys are where the routing table's list of
             # previous owners says
             yield "c.scanall emb %d %s * %d" % (r.choice(alive), r.choice(DMS), r.choice([1, 3, 100]))
